@@ -142,10 +142,22 @@ def frames_enum(fr):
     return [CDSFrame(f) for f in fr]
 
 
-def mk_tx(exons, strand, cds=None, frames=None, parent=None, **kw):
+def listing(xs, order):
+    """the order in which parallel constructor lists are handed over: None = ascending, "rev" = descending,
+    an int r = rotated by r places (neither ascending nor descending for >= 3 entries)"""
+    xs = list(xs)
+    if order is None or len(xs) < 2:
+        return xs
+    if order == "rev":
+        return xs[::-1]
+    r = order % len(xs)
+    return xs[r:] + xs[:r]
+
+
+def mk_tx(exons, strand, cds=None, frames=None, parent=None, order=None, **kw):
     from inscripta.biocantor.gene.transcript import TranscriptInterval
 
-    ex = sorted(exons)
+    ex = listing(sorted(exons), order)
     args = dict(
         exon_starts=[b[0] for b in ex],
         exon_ends=[b[1] for b in ex],
@@ -153,16 +165,16 @@ def mk_tx(exons, strand, cds=None, frames=None, parent=None, **kw):
         parent_or_seq_chunk_parent=parent,
     )
     if cds is not None:
-        cb = sorted(cds)
-        args.update(cds_starts=[b[0] for b in cb], cds_ends=[b[1] for b in cb], cds_frames=frames_enum(frames))
+        cb = listing(sorted(cds), order)
+        args.update(cds_starts=[b[0] for b in cb], cds_ends=[b[1] for b in cb], cds_frames=listing(frames_enum(frames), order))
     args.update(kw)
     return TranscriptInterval(**args)
 
 
-def mk_feat(blocks, strand, parent=None, **kw):
+def mk_feat(blocks, strand, parent=None, order=None, **kw):
     from inscripta.biocantor.gene.feature import FeatureInterval
 
-    bl = sorted(blocks)
+    bl = listing(sorted(blocks), order)
     return FeatureInterval([b[0] for b in bl], [b[1] for b in bl], STRAND[strand], parent_or_seq_chunk_parent=parent, **kw)
 
 
